@@ -394,6 +394,11 @@ def c18_cases(tier):
     for (ctxs, w) in ((["arc"], None), (["arc", "MyCtx"], ["borrow", "into", "get_mut"])):
         for lang in langs:
             add("foreign", "foreign:bulk", wrapped_model(ctxs, w, "Box", ["bulk"]), lang)
+    # S3a' user declarations documented in non-ASCII text / mentioning the other language's keywords in the middle of a line
+    for kind in ("nonascii", "cppwords"):
+        for (ctxs, w) in ((["arc"], None), (["arc", "MyCtx"], ["borrow", "into", "get_mut"])):
+            for lang in langs:
+                add("foreign", "foreign:%s" % kind, wrapped_model(ctxs, w, "Box", [kind]), lang)
     # S3b users of `const TypeLayout *`: undeclared / declared as a struct / (C++) declared as an alias
     for kind in ("layout_undeclared", "layout_struct", "layout_alias"):
         for (ctxs, w) in ((["arc"], None), (["arc", "MyCtx"], ["borrow", "into", "get_mut"])):
